@@ -180,7 +180,7 @@ func CheckShape(sc *Scenario, o *Outcome) []Diff {
 
 // CheckRun compares a successful run with the reference; the diffs are attributed to C01..C05.
 func CheckRun(sc *Scenario, o *Outcome) ([]Diff, *RefInfo) {
-	ref, info := Reference(sc, o, 0)
+	ref, info := Reference(sc, o, sc.runIdx())
 	info.Ref = ref
 	ds := CheckShape(sc, o)
 	hops := o.Run.Hops
@@ -232,7 +232,7 @@ func CheckRun(sc *Scenario, o *Outcome) ([]Diff, *RefInfo) {
 				continue
 			}
 			var own, other *Event
-			for _, e := range o.Wire.Reads(0) {
+			for _, e := range o.Wire.Reads(sc.runIdx()) {
 				tg := e.Tag
 				if tg.Class != "genuine" || tg.Flow != info.RunFlow || !isDirectTCP(tg.Form) {
 					continue
@@ -264,11 +264,11 @@ func CheckRun(sc *Scenario, o *Outcome) ([]Diff, *RefInfo) {
 // end of its listening window must have been returned by Read (unless the run ended first).
 func checkMustRead(sc *Scenario, o *Outcome, info *RefInfo) []Diff {
 	w := o.Wire
-	if len(w.Sources) == 0 || info.NSent == 0 {
+	if len(w.Sources) <= sc.runIdx() || info.NSent == 0 {
 		return nil
 	}
 	read := map[int]bool{}
-	for _, e := range w.Reads(0) {
+	for _, e := range w.Reads(sc.runIdx()) {
 		read[e.Tag.ID] = true
 	}
 	end := o.Start + o.Elapsed
@@ -298,7 +298,7 @@ func checkMustRead(sc *Scenario, o *Outcome, info *RefInfo) []Diff {
 		}
 		if must {
 			prop, sig := "C02", "unread-reply"
-			if !w.FiltersOff && len(w.Sources) > 0 && !w.Sources[0].passes(p.data) {
+			if !w.FiltersOff && !w.Sources[sc.runIdx()].passes(p.data) {
 				prop, sig = "C12", "filtered-reply"
 			}
 			ds = append(ds, Diff{prop, sig, fmt.Sprintf("genuine reply #%d (%s, TTL %d, %s) became available at %v but was never returned by Read (run ended %v)", p.tag.ID, p.tag.Form, p.tag.CreditTTL, p.tag.Responder, arr, end)})
@@ -325,7 +325,7 @@ func CheckEmission(sc *Scenario, o *Outcome) []Diff {
 	w := o.Wire
 	add := func(sig, f string, a ...any) { ds = append(ds, Diff{"C06", sig, fmt.Sprintf(f, a...)}) }
 	ds = append(ds, worldProblems(o.World, "C06")...)
-	sends := w.Sends(0)
+	sends := w.Sends(sc.runIdx())
 	var prev *Event
 	seenTTL := map[int]bool{}
 	idents := map[string]int{}
@@ -333,7 +333,7 @@ func CheckEmission(sc *Scenario, o *Outcome) []Diff {
 	// the first destination reply the reference accepted (not merely read: e.g. a Paris-mode SYN-ACK for an
 	// earlier probe is read and legitimately ignored)
 	var firstDestRead time.Duration = -1
-	_, rinfo := Reference(sc, o, 0)
+	_, rinfo := Reference(sc, o, sc.runIdx())
 	for _, e := range rinfo.Accepted {
 		if e.Tag.IsDestForm && e.Tag.FromTarget {
 			firstDestRead = e.At
